@@ -409,6 +409,122 @@ def seed_shape(rng, idx):
             "class Main { function main(): unit = {} }\n")
     return {"sources": {"Main": text}, "entry": "Main", "std": False, "kind": "rejected", "id": idx}
 
+COV_ACCEPTED = {
+ "shapes.Lib": '''interface HasArea { method area(): int }
+class Re(val w: int, val h: int) : HasArea { method area(): int = this.w * this.h }
+class Wrap<T: HasArea>(val inner: T) : HasArea { method area(): int = this.inner.area() + 1 }
+class Opt<T>(None, Some(T)) {}
+class Tri(A(Opt<int>), B(int, Opt<Opt<int>>), C) {}
+class Measure {
+  function <T: HasArea> of(t: T): int = t.area()
+  function <T: HasArea> twice(t: T): int = Measure.of(t) + t.area()
+}
+''',
+ "Main": '''import { HasArea, Re, Wrap, Opt, Tri, Measure } from shapes.Lib;
+class Acc(val base: int) {
+  method adder(): (int) -> int = (x) -> x + this.base
+  method both(k: int): (int) -> int = (x) -> x * k + this.base
+}
+class Main {
+  function logic(a: bool, b: bool): int = {
+    let n1 = if !a { 1 } else { 0 };
+    let n2 = if true && b { 2 } else { 0 };
+    let n3 = if false && b { 4 } else { 0 };
+    let n4 = if true || b { 8 } else { 0 };
+    let n5 = if false || a { 16 } else { 0 };
+    let n6 = if !(a && !b) { 32 } else { 0 };
+    n1 + n2 + n3 + n4 + n5 + n6
+  }
+  function strs(): Str = {
+    let s = "lit";
+    let t = s;
+    let u = "con" :: "cat";
+    t :: u :: ("a" :: "b")
+  }
+  function arith(a: int, b: int): int = a / b + a % b + { let z = a * 2; z } - (if true { 1 } else { 2 }) + (if false { 10 } else { 20 })
+  function deep(t: Tri): int = match t {
+    A(Some(x)) -> x,
+    A(None) -> 2,
+    B(n, Some(Some(k))) -> k + n,
+    B(_, Some(None)) | B(_, None) -> 4,
+    C -> 6,
+  }
+  function guard(o: Opt<Opt<int>>): int = if let Some(Some(v)) = o { v } else { 0 - 1 }
+  function vec(): int = { let v = Vec.empty<int>(); let _ = v.push(3); let _ = v.push(4); v.get(0) + v.get(1) + v.length() }
+  function main(): unit = {
+    Process.println(Str.fromInt(Main.logic(true, false) * 100 + Main.logic(false, true)));
+    Process.println(Main.strs());
+    Process.println(Str.fromInt(Main.arith(17, 5)));
+    Process.println(Str.fromInt(Main.deep(Tri.A(Opt.Some(3))) + Main.deep(Tri.B(0, Opt.Some(Opt.Some(40)))) + Main.deep(Tri.B(7, Opt.Some(Opt.Some(1)))) + Main.deep(Tri.C()) + Main.deep(Tri.B(1, Opt.None<Opt<int>>()))));
+    Process.println(Str.fromInt(Main.guard(Opt.Some(Opt.Some(5))) + Main.guard(Opt.None<Opt<int>>())));
+    Process.println(Str.fromInt(Measure.twice(Re.init(2, 3)) + Measure.of(Wrap.init(Re.init(4, 5))) + Measure.twice(Wrap.init(Wrap.init(Re.init(1, 1))))));
+    Process.println(Str.fromInt(Acc.init(10).adder()(5) + Acc.init(1).both(3)(4)));
+    Process.println(Str.fromInt(Main.vec()));
+  }
+}
+'''}
+
+
+COV_ERR_BODY = """class Bv { function f(): int = { let g = Process.println; 1 } }
+class Tk { function f(): int = { let x = 3; x(1) } }
+class Tf { function f(): int = 3.foo }
+class Sup {}
+class Sub : Sup {}
+interface Ip { method m(): int }
+class Cp : Ip { private method m(): int = 1 }
+class Ca { function f(x: Ip): int = 1 }
+class Nc {}
+class Wc<T: Ip>(val v: T) { function f(x: Wc<Nc>): int = 1 }
+class Gb { function <T: Ip> g(x: T): int = 1
+  function f(): int = Gb.g(Nc.nope()) }
+interface It { method <A> m(a: A): int }
+class Ct : It { method <A, B> m(a: A): int = 1 }
+class Cn : It { method <B> m(a: B): int = 1 }
+interface Iq { method <A: Ip> m(a: A): int }
+class Cq : Iq { method <A> m(a: A): int = 1 }
+class Ns { function f(): int = { let g: (int, (bool) -> int) -> int = (a: int, h: (int) -> int) -> 1; 1 } }
+class Pair<A, B>(val a: A, val b: B) { function f(): Pair<int, Pair<bool, int>> = Pair.init(1, Pair.init(2, true))
+  function g(p: Pair<int, bool>): Pair<bool, int> = p }
+class Ea { function f(): int = true
+  function g(): int = undefinedName + alsoUndefined }
+class Mv(Aa, Bb(int), Cc, Dd(int, int)) { function f(v: Mv): int = match v { Bb(_) -> 1 }
+  function g(v: Mv, w: Mv): int = match (v, w) { (Aa, _) -> 1, (_, Bb(_)) -> 2 } }
+interface Jm { method a(): int method firstVeryLongMemberName(): int method c(): int method secondVeryLongMemberName(): int }
+class Km : Jm { }
+class St(val a: int, val secondVeryLongMemberName: bool, val firstVeryLongMemberName: int) { function f(s: St): int = { let { a } = s; a }
+  function g(): St = St.init(true, 3) }
+class Ar { function g(a: int): int = a
+  function f(): int = Ar.g(1, 2) + Ar.g(true) }
+class Du { function f(a: int, a: int): int = a }
+class Du { }
+class Un<T>(N, S(T)) { function f(): int = { let x = Un.N(); 1 } }
+class Or(Ci(int), Re(int, int), Em) { function f(s: Or): int = match s { Ci(r) | Re(w, h) -> 1, Em -> 0 } }
+interface Ca1 : Cb1 { }
+interface Cb1 : Ca1 { }
+interface Fi { function notAllowed(): int }
+"""
+
+
+def cov_family():
+    """Deterministic (seed-independent) programs for code the random streams do not reach (round 5,
+    coverage/C12.txt): every `ErrorDetail` kind's rendering (BuiltinMemberAsValue, IncompatibleTypeKind,
+    IncompatibleSubType, MissingExport, TypeParametersArity, TypeParameterNameMismatch, nested stacked
+    incompatibilities, multi-argument descriptions), > 20 diagnostics spread over 3-4 modules whose
+    name order differs from every allocation order tried (stable by-name sort, class of seeded C12d),
+    and lowering paths (`!`, constant `&&`/`||`, literal `::`, `/`, constant `if`, nested and or-patterns,
+    `if let`, `this`-capturing lambdas, bounded generics instantiated with generic classes, `Vec`)."""
+    fam = [dict(sources=dict(COV_ACCEPTED), entry="Main", std=True, kind="accepted", label="cov-accepted")]
+    names = ["Zeta", "alpha.ModuleWithLongNameBeta", "Mid", "ModuleWithLongNameAlpha"]
+    src = {}
+    for k, m in enumerate(names):
+        other = names[(k + 1) % len(names)]
+        src[m] = f"import {{ Nope{k}, Sup }} from {other};\nimport {{ Gone }} from Not.There{k};\n" + COV_ERR_BODY
+    fam.append(dict(sources=src, entry="Zeta", std=False, kind="rejected", label="cov-rejected-4-modules"))
+    two = {"Zz": "import { Nope } from Aa;\n" + COV_ERR_BODY, "Aa": COV_ERR_BODY + "class Sy { function f(): int = }\n"}
+    fam.append(dict(sources=two, entry="Zz", std=True, kind="rejected", label="cov-rejected-2-modules"))
+    return fam
+
+
 # --------------------------------------------------------------------------- known findings
 
 F1_PROBE = {"sources": {"A": "class A { function f(): int = true }\n", "B": "class B { function g(): bool = 3 }\n"},
@@ -1018,6 +1134,8 @@ def run(ctx):
     samples, nontrivial = [], 0
     for prog in load_corpus():
         check_program(ctx, prog, rng.fork(), 10, stats, prog["label"], shrink=False)
+    for prog in cov_family():
+        check_program(ctx, prog, rng.fork(), 12, stats, prog["label"], shrink=False)
     n_acc = ctx.scale(36, 400)
     n_rej = ctx.scale(70, 800)
     n_seed = ctx.scale(16, 120)
